@@ -1981,7 +1981,10 @@ fn collect_definitions<'a>(
     term: Rc<Term<'a>>,
 ) -> Rc<Term<'a>> {
     match &term.variant {
-        Variant::Let(variable, annotation, definition, body) => {
+        // An explicitly grouped let in the body position starts a group of its own.
+        Variant::Let(variable, annotation, definition, body)
+            if !term.group || definitions.is_empty() =>
+        {
             definitions.push((*variable, annotation.clone(), definition.clone()));
             collect_definitions(definitions, body.clone())
         }
